@@ -105,6 +105,7 @@ type Exec struct {
 	stubCalls int
 	noPrune bool
 	cuts    map[string]bool
+	nice    []*Term
 	fullTimeout int
 	freshRetries int
 }
